@@ -277,7 +277,7 @@ def run(pid, tier="quick", seed=1, replay=None):
         cases += mod.generate(rng, tier)
 
     stats = {"evaluations": 0, "bit_identical": 0, "within_tol": 0, "mismatch": 0, "tags": {}, "outcomes": {}}
-    nontriv = set(); samples = []; mism = []
+    nontriv = set(); samples = []; mism = []; pred_errors = 0
     impl_out = model_out = []
     if exe and os.path.exists(driver) and cases:
         lines = [c.line for c in cases]
@@ -309,7 +309,10 @@ def run(pid, tier="quick", seed=1, replay=None):
                     sig, msg = v if isinstance(v, tuple) else (c.line.split()[0], v)
                     violations.append({"sig": sig, "msg": msg, "case": c.line, "impl": io, "model": mo})
             except Exception as e:
+                # a clause that cannot be evaluated on an answer is not silently skipped: the answer is reported as unreadable
+                pred_errors += 1
                 notes.append(f"predicate error on {c.line[:80]}: {e!r}")
+                violations.append({"sig": f"{c.line.split()[0]}:unreadable-answer", "msg": f"the clauses of the property could not be evaluated on this answer ({e!r})", "case": c.line, "impl": io, "model": mo})
             try:
                 if mod.nontrivial(c, io):
                     nontriv.add(hashlib.sha1(c.line.encode()).hexdigest())
@@ -443,7 +446,7 @@ def run(pid, tier="quick", seed=1, replay=None):
            "samples": samples or [{"note": "no sample collected"}],
            "traces_validated_against_impl": stats["within_tol"], "bit_identical": stats["bit_identical"], "mismatches": stats["mismatch"],
            "input_distribution": stats["tags"], "impl_outcomes": stats["outcomes"],
-           "known_findings_reproduced": sorted(seen_known), "known_findings_cases": known_cases, "broken": [{k: (str(v)[:500]) for k, v in b.items()} for b in broken[:4]]}
+           "predicate_errors": pred_errors, "known_findings_reproduced": sorted(seen_known), "known_findings_cases": known_cases, "broken": [{k: (str(v)[:500]) for k, v in b.items()} for b in broken[:4]]}
     if alt: cov["alternative_builds"] = alt
     cov.update(extra)
     ev = {"property_id": pid, "tier": tier, "seed": seed, "level": getattr(mod, "LEVEL", "proof"), "coverage": cov,
